@@ -121,7 +121,7 @@ def run(chk):
                     try:
                         pdfs, errs = apply.apply_pdf(eko, PDF(), None if tg is None else [Q(1, 10), Q(1, 2), Q(9, 10)], rot)
                     except Exception as e:
-                        chk.fail(f"{tag}.no_exception", f"{type(e).__name__}: {e}", fn=fn, replay=rp)
+                        chk.raised(f"{tag}.no_exception", e, fn=fn, replay=rp)
                         continue
                     finally:
                         apply.interpolation.InterpolatorDispatcher = saved
